@@ -933,6 +933,264 @@ example : ((runFlight .none cxEnv flReqs flSched).log.map (·.2.path)) =
 example : ((runFlight { url := true, hdr := false } cxEnv flReqs flSched).log.map (fun io => (io.2.method, io.2.path))) =
     [(mGET, "/ddns/c/d/e".toList), (mPOST, "/ddns/c/d/e".toList)] := by decide
 
+/-! ### round 4: fault paths -/
+
+/-- whatever the transport and the backend do, everything the backend receives is the one outgoing
+request. -/
+theorem roundTrip_sends_only (retryable : Bool) (o : Out) (atts : List Attempt) :
+    ∀ x ∈ (roundTrip retryable o atts).2, x = o := by
+  induction atts with
+  | nil => simp [roundTrip]
+  | cons a rest ih =>
+    cases a with
+    | noConn => simp [roundTrip]
+    | broke =>
+      cases retryable with
+      | false => simp [roundTrip]
+      | true =>
+        intro x hx
+        simp only [roundTrip, if_true, List.mem_cons] at hx
+        rcases hx with hx | hx
+        · exact hx
+        · exact ih x hx
+    | answered s => simp [roundTrip]
+
+/-- no backend answer makes the proxy hand the client a protocol switch. -/
+theorem roundTrip_never_101 (retryable : Bool) (o : Out) (atts : List Attempt) :
+    (roundTrip retryable o atts).1 ≠ .backend 101 := by
+  induction atts with
+  | nil => simp [roundTrip]
+  | cons a rest ih =>
+    cases a with
+    | noConn => simp [roundTrip]
+    | broke =>
+      cases retryable with
+      | false => simp [roundTrip]
+      | true => simpa [roundTrip] using ih
+    | answered s =>
+      by_cases hs : s = 101
+      · simp [roundTrip, hs]
+      · simp [roundTrip, hs]
+
+/-- a failing target never turns the answer into a local 404 or the robots file, and the answer is
+the backend's only if some attempt was answered. -/
+theorem roundTrip_answer (retryable : Bool) (o : Out) (atts : List Attempt) :
+    (roundTrip retryable o atts).1 = .empty ∨ ∃ s, .answered s ∈ atts ∧ (roundTrip retryable o atts).1 = .backend s := by
+  induction atts with
+  | nil => simp [roundTrip]
+  | cons a rest ih =>
+    cases a with
+    | noConn => simp [roundTrip]
+    | broke =>
+      cases retryable with
+      | false => simp [roundTrip]
+      | true =>
+        rcases ih with h | ⟨s, hm, h⟩
+        · left; simpa [roundTrip] using h
+        · right; exact ⟨s, List.mem_cons_of_mem _ hm, by simpa [roundTrip] using h⟩
+    | answered s =>
+      by_cases hs : s = 101
+      · left; simp [roundTrip, hs]
+      · right; exact ⟨s, by simp, by simp [roundTrip, hs]⟩
+
+/-- **faults_forward_only_api_with_real_address**: for EVERY behaviour of the transport and the
+backend (no connection, connections that break after the request was written, repeated attempts of
+a replayable request, any final status including redirects and unrequested protocol switches), every
+request the backend receives is the client's own request as `Rewrite` left it: same method, one of
+the four shapes, normalised path under the prefix, the peer's address as the only `X-Connecting-Ip`,
+no forwarding header, no protocol switch. -/
+theorem faults_forward_only_api_with_real_address (e : Env) (r : Req) (retryable : Bool) (atts : List Attempt) :
+    ∀ x ∈ (serveFaulty e r retryable atts).2,
+      x.method = r.method ∧ serve e r = .proxied x.path x.hdrs ∧
+      Shape r.method (trimSlash r.path) ∧
+      (∃ rel, x.path = stripEnd e.base ++ rel ∧ normalize rel = rel ∧ underPrefix rel = true) ∧
+      (∃ ip, splitHost r.remote = some ip ∧ vals hXConnectingIP x.hdrs = [ip]) ∧
+      (∀ n ∈ forwardingNames, vals n x.hdrs = []) ∧ upgradeType x.hdrs = [] := by
+  intro x hx
+  unfold serveFaulty at hx
+  cases hsv : serve e r with
+  | notFound => rw [hsv] at hx; simp at hx
+  | robots => rw [hsv] at hx; simp at hx
+  | err500 => rw [hsv] at hx; simp at hx
+  | proxyErr => rw [hsv] at hx; simp at hx
+  | proxied p h =>
+    rw [hsv] at hx
+    have hxo := roundTrip_sends_only retryable _ atts x hx
+    subst hxo
+    obtain ⟨h1, h2, h3, h4⟩ := forwards_only_api_with_real_address hsv
+    exact ⟨rfl, rfl, h1, h2, h3, h4, (no_protocol_switch hsv).2.2⟩
+
+/-- **faults_non_api_stays_local**: whatever happens on the backend side, a request that has none of
+the four shapes is answered locally (404 or the robots file) and nothing is sent. -/
+theorem faults_non_api_stays_local (e : Env) (r : Req) (retryable : Bool) (atts : List Attempt)
+    (h : ¬ Shape r.method (trimSlash r.path)) :
+    (serveFaulty e r retryable atts).2 = [] ∧
+    (r.path = robotsPath → (serveFaulty e r retryable atts).1 = .robots) ∧
+    (r.path ≠ robotsPath → (serveFaulty e r retryable atts).1 = .notFound) := by
+  obtain ⟨h1, h2⟩ := not_api_answered_locally e r h
+  by_cases hp : r.path = robotsPath
+  · simp [serveFaulty, h1 hp, hp]
+  · simp [serveFaulty, h2 hp, hp]
+
+/-- **faults_api_answer**: an API-shaped request is never answered with 404, the robots file or a
+protocol switch, whatever the backend side does; when nobody listens on the target the answer is
+empty (or 500 for an unusable peer address) and nothing was sent. -/
+theorem faults_api_answer (e : Env) (r : Req) (retryable : Bool) (atts : List Attempt)
+    (hs : Shape r.method (trimSlash r.path)) :
+    (serveFaulty e r retryable atts).1 ≠ .notFound ∧ (serveFaulty e r retryable atts).1 ≠ .robots ∧
+    (serveFaulty e r retryable atts).1 ≠ .backend 101 ∧
+    (atts.head? = some .noConn → (serveFaulty e r retryable atts).2 = [] ∧
+      ((serveFaulty e r retryable atts).1 = .empty ∨ (serveFaulty e r retryable atts).1 = .err500)) := by
+  have hs' : shouldProxyV .fixed r.method r.path = true := (shouldProxy_iff _ _).mpr hs
+  unfold serveFaulty
+  cases hsv : serve e r with
+  | notFound => simp [serve, serveV, hs'] at hsv; split at hsv <;> (try split at hsv) <;> simp at hsv
+  | robots => simp [serve, serveV, hs'] at hsv; split at hsv <;> (try split at hsv) <;> simp at hsv
+  | err500 => simp
+  | proxyErr => simp
+  | proxied p h =>
+    simp only
+    refine ⟨?_, ?_, roundTrip_never_101 _ _ _, ?_⟩
+    · rcases roundTrip_answer retryable { method := r.method, path := p, hdrs := h } atts with h1 | ⟨s, _, h1⟩ <;> simp [h1]
+    · rcases roundTrip_answer retryable { method := r.method, path := p, hdrs := h } atts with h1 | ⟨s, _, h1⟩ <;> simp [h1]
+    · intro hh
+      cases atts with
+      | nil => simp at hh
+      | cons a rest =>
+        simp at hh; subst hh
+        simp [roundTrip]
+
+-- non-vacuity: a GET whose connection breaks twice is written three times, each time the same
+-- request; a POST is written once; a dead target gets nothing; a redirect is handed on.
+example : ((serveFaulty cxEnv cxReq true [.broke, .broke, .answered 200]).2.length,
+    (serveFaulty cxEnv cxReq true [.broke, .broke, .answered 200]).1) = (3, .backend 200) := by decide
+example : (serveFaulty cxEnv cxReq false [.broke, .answered 200]).2.length = 1 := by decide
+example : serveFaulty cxEnv cxReq true [.noConn] = (.empty, []) := by decide
+example : (serveFaulty cxEnv cxReq true [.answered 307]).1 = .backend 307 := by decide
+example : (serveFaulty cxEnv cxReq true [.answered 101]).1 = .empty := by decide
+
+/-! ### round 4: the path-and-query part `classify` returns is a piece of the target on the wire -/
+
+/-- the request target as `url.ParseRequestURI` gets it from `readRequest`: the authority of a
+`CONNECT` request gets `http://` in front. -/
+def wireTarget (m t : Str) : Str := if m = mCONNECT && !startsSlash t then httpSlashSlash ++ t else t
+
+theorem takeWhile_append_dropWhile_eq (p : Char → Bool) (l : Str) : l = l.takeWhile p ++ l.dropWhile p :=
+  (List.takeWhile_append_dropWhile (p := p) (l := l)).symm
+
+theorem not_mem_takeWhile_ne (c : Char) (l : Str) : c ∉ l.takeWhile (· ≠ c) := by
+  induction l with
+  | nil => simp
+  | cons x r ih =>
+    by_cases hx : x = c
+    · simp [List.takeWhile, hx]
+    · have hx' : (x != c) = true := by simp [hx]
+      simp only [List.takeWhile, ne_eq, decide_not, hx, decide_false, Bool.not_false, List.mem_cons, not_or]
+      exact ⟨fun h => hx h.symm, by simpa using ih⟩
+
+theorem dropWhile_ne_head (c : Char) (l : Str) : l.dropWhile (· ≠ c) = [] ∨ ∃ r, l.dropWhile (· ≠ c) = c :: r := by
+  induction l with
+  | nil => simp
+  | cons x r ih =>
+    by_cases hx : x = c
+    · right; exact ⟨r, by simp [List.dropWhile, hx]⟩
+    · simpa [List.dropWhile, hx] using ih
+
+theorem getSchemeGo_piece (whole : Str) : ∀ (s acc sc rest : Str), whole = acc.reverse ++ s →
+    getSchemeGo whole acc s = some (sc, rest) → rest = whole ∨ ∃ pre, whole = pre ++ ':' :: rest := by
+  intro s
+  induction s with
+  | nil => intro acc sc rest _ h; simp [getSchemeGo] at h; exact Or.inl h.2.symm
+  | cons c r ih =>
+    intro acc sc rest hw h
+    unfold getSchemeGo at h
+    have hw' : whole = (c :: acc).reverse ++ r := by simp [hw]
+    split at h
+    · exact ih _ _ _ hw' h
+    · split at h
+      · split at h
+        · simp at h; exact Or.inl h.2.symm
+        · exact ih _ _ _ hw' h
+      · split at h
+        · next hc =>
+          split at h
+          · simp at h
+          · simp at h; right; exact ⟨acc.reverse, by rw [hw, h.2, hc]⟩
+        · simp at h; exact Or.inl h.2.symm
+
+theorem classifyRest_piece {scheme rest q : Str} (h : classifyRest scheme rest = .origin q) :
+    ∃ pre post, rest = pre ++ '/' :: q ++ post ∧ '?' ∉ q ∧ (post = [] ∨ ∃ r, post = '?' :: r) := by
+  have hsplit : rest = rawPath rest ++ rest.dropWhile (· ≠ '?') := takeWhile_append_dropWhile_eq _ rest
+  have hq : '?' ∉ rawPath rest := not_mem_takeWhile_ne '?' rest
+  have hpost := dropWhile_ne_head '?' rest
+  unfold classifyRest at h
+  split at h
+  · next a hrp =>
+    split at h
+    · split at h
+      · split at h
+        · simp at h
+        · next q' hd =>
+          simp at h; subst h
+          have ha : a = a.takeWhile (· ≠ '/') ++ '/' :: q' := by
+            have := takeWhile_append_dropWhile_eq (· ≠ '/') a
+            rw [hd] at this; exact this
+          refine ⟨'/' :: '/' :: a.takeWhile (· ≠ '/'), rest.dropWhile (· ≠ '?'), ?_, ?_, hpost⟩
+          · conv => lhs; rw [hsplit, hrp, ha]
+            simp
+          · intro hm
+            apply hq
+            rw [hrp, ha]
+            simp [hm]
+        · simp at h
+      · simp at h
+    · simp at h; subst h
+      refine ⟨[], rest.dropWhile (· ≠ '?'), ?_, ?_, hpost⟩
+      · conv => lhs; rw [hsplit, hrp]
+        simp
+      · intro hm; apply hq; rw [hrp]; simp at hm ⊢; exact hm
+  · next q' hrp =>
+    simp at h; subst h
+    refine ⟨[], rest.dropWhile (· ≠ '?'), ?_, ?_, hpost⟩
+    · conv => lhs; rw [hsplit, hrp]
+      simp
+    · intro hm; apply hq; rw [hrp]; simp [hm]
+  · split at h <;> simp at h
+
+/-- **classify_origin_is_piece**: the path-and-query part `/q` that `classify` hands to `parseTarget`
+is a contiguous piece of the request target on the wire, it ends where the query (or the target)
+ends, and it contains no `?`: the model's parser neither invents nor reorders bytes, for every method
+and every target. -/
+theorem classify_origin_is_piece {m t q : Str} (h : classify m t = .origin q) :
+    ∃ pre post, wireTarget m t = pre ++ '/' :: q ++ post ∧ '?' ∉ q ∧ (post = [] ∨ ∃ r, post = '?' :: r) := by
+  unfold classify at h
+  simp only [] at h
+  change (if (wireTarget m t).any badTargetByte = true then TargetForm.refused
+    else if wireTarget m t = [] then .refused
+    else if wireTarget m t = ['*'] then .noPath true
+    else match getScheme (wireTarget m t) with
+      | none => .refused
+      | some sr => classifyRest sr.1 sr.2) = .origin q at h
+  split at h
+  · simp at h
+  · split at h
+    · simp at h
+    · split at h
+      · simp at h
+      · cases hg : getScheme (wireTarget m t) with
+        | none => rw [hg] at h; simp at h
+        | some sr =>
+          rw [hg] at h
+          simp only at h
+          obtain ⟨pre, post, h1, h2, h3⟩ := classifyRest_piece h
+          have := getSchemeGo_piece (wireTarget m t) (wireTarget m t) [] sr.1 sr.2 (by simp) (by simpa [getScheme] using hg)
+          rcases this with hw | ⟨p0, hw⟩
+          · exact ⟨pre, post, by rw [← hw, h1], h2, h3⟩
+          · exact ⟨p0 ++ ':' :: pre, post, by rw [hw, h1]; simp, h2, h3⟩
+
+example : classify mGET "http://h:80/linkip/a/b?x=/../".toList = .origin "linkip/a/b".toList := by decide
+example : wireTarget mCONNECT "h:443/x".toList = "http://h:443/x".toList := by decide
+
 end Agd.LinkIP
 
 #print axioms Agd.LinkIP.shouldProxy_iff
@@ -1013,3 +1271,15 @@ end Agd.LinkIP
 #print axioms Agd.Tie.TrC19.serve_class_tr
 #print axioms Agd.Tie.TrC19.rewrite_resets_proxy_headers
 #print axioms Agd.Tie.TrC19.modifyResponse_ok
+#print axioms Agd.LinkIP.roundTrip_sends_only
+#print axioms Agd.LinkIP.roundTrip_never_101
+#print axioms Agd.LinkIP.roundTrip_answer
+#print axioms Agd.LinkIP.faults_forward_only_api_with_real_address
+#print axioms Agd.LinkIP.faults_non_api_stays_local
+#print axioms Agd.LinkIP.faults_api_answer
+#print axioms Agd.LinkIP.takeWhile_append_dropWhile_eq
+#print axioms Agd.LinkIP.not_mem_takeWhile_ne
+#print axioms Agd.LinkIP.dropWhile_ne_head
+#print axioms Agd.LinkIP.getSchemeGo_piece
+#print axioms Agd.LinkIP.classifyRest_piece
+#print axioms Agd.LinkIP.classify_origin_is_piece
